@@ -1,8 +1,97 @@
 (** Correspondence + spec search for the allocator lab (C11). *)
 From Coq Require Import List ZArith Bool.
-From TR Require Import Lib.Sx Pol.Alloc Run.Eng.
+From TR Require Import Lib.Sx Pol.Alloc Net.Ideal Run.Eng.
 Import ListNotations.
 Open Scope Z_scope.
+
+(** ---- kind 18: several real runs over one simulated wire on which every handle sees every packet; the network routes
+    per flow (path length, silent router and router addresses are functions of the flow key), so each run's solo result
+    is the ideal path of its own flow *)
+Definition shared_path (key : Z) : path :=
+  let n := 1 + key mod 4 in
+  mkPath n (if (2 <=? n) && ((key / 4) mod 3 =? 0) then 1 + (key / 12) mod n else 0).
+
+Definition router_key (ip : list Z) : option (Z * Z) :=
+  match ip with
+  | [a; hi; lo; k] => if a =? 10 then Some (256 * hi + lo, k) else None
+  | [a; _; _; _; _; _; _; _; _; _; _; _; hi; lo; _; k] => if a =? 253 then Some (256 * hi + lo, k) else None
+  | _ => None
+  end.
+
+Definition is_target (ip : list Z) : bool :=
+  list_eqb Z.eqb ip [127; 0; 0; 1] || list_eqb Z.eqb ip [0; 0; 0; 0; 0; 0; 0; 0; 0; 0; 0; 0; 0; 0; 0; 1].
+
+Definition d_shop (s : sx) : option (Z * list Z * bool * bool) :=
+  match s with
+  | L [A t; ip; A d; A neg] => match sx_bytes ip with Some b => Some (t, b, negb (d =? 0), negb (neg =? 0)) | None => None end
+  | _ => None
+  end.
+
+Definition d_srun_in (s : sx) : option (Z * bool * Z * Z * Z) :=
+  match s with L [A proto; A v6; A last; A start; A grp] => Some (proto, negb (v6 =? 0), last, start, grp) | _ => None end.
+
+Definition d_srun_out (s : sx) : option (Z * list (Z * list Z * bool * bool)) :=
+  match s with
+  | L [A status; L hops] => match dec_list d_shop hops with Some h => Some (status, h) | None => None end
+  | _ => None
+  end.
+
+Fixpoint first_key (hops : list (Z * list Z * bool * bool)) : option Z :=
+  match hops with
+  | [] => None
+  | (_, ip, _, _) :: r => match router_key ip with Some (key, _) => Some key | None => first_key r end
+  end.
+
+Definition shop_ok (key n : Z) (e : Z * option Z * bool) (o : Z * list Z * bool * bool) : bool :=
+  match e, o with
+  | (t, who, d), (t', ip, d', neg) =>
+      (t =? t') && Bool.eqb d d' && negb neg
+      && match who with
+         | None => match ip with [] => true | _ => false end
+         | Some r => if r <=? n then match router_key ip with Some (key', k) => (key' =? key) && (k =? r) | None => false end
+                     else is_target ip
+         end
+  end.
+
+Fixpoint all2s (key n : Z) (a : list (Z * option Z * bool)) (b : list (Z * list Z * bool * bool)) : bool :=
+  match a, b with
+  | [], [] => true
+  | x :: a', y :: b' => shop_ok key n x y && all2s key n a' b'
+  | _, _ => false
+  end.
+
+(** 0 ok; 1 foreign router among the hops; 4 not the solo result *)
+Definition srun_verdict (i : Z * bool * Z * Z * Z) (o : Z * list (Z * list Z * bool * bool)) : Z * option Z :=
+  match i, o with
+  | (proto, v6, last, _, _), (status, hops) =>
+      match first_key hops with
+      | None => (4, None)
+      | Some key =>
+          let pa := shared_path key in
+          if (status =? 0) && all2s key (pa_n pa) (predicted pa 1 last) hops then (0, Some (key + 65536 * (proto + 4 * (if v6 then 1 else 0))))
+          else if existsb (fun h => match h with (_, ip, _, _) => match router_key ip with Some (k', _) => negb (k' =? key) | None => false end end) hops
+               then (1, Some key) else (4, Some key)
+      end
+  end.
+
+Fixpoint nodupz (l : list Z) : bool := match l with [] => true | x :: r => negb (existsb (Z.eqb x) r) && nodupz r end.
+
+Definition check_shared (prop : Z) (inp impl : sx) : sx :=
+  match inp, impl with
+  | L [A 18; A filt; L rin], L rout =>
+      match dec_list d_srun_in rin, dec_list d_srun_out rout with
+      | Some rin, Some rout =>
+          let cls := 1 + 2 * Z.min 7 (Z.of_nat (length rin)) + (if filt =? 0 then 0 else 16) in
+          if negb (Nat.eqb (length rin) (length rout)) then badcase else
+          let vs := map (fun io => srun_verdict (fst io) (snd io)) (combine rin rout) in
+          if existsb (fun v => fst v =? 1) vs then verdict V_SPECFAIL cls [11; 1] (L (map (fun v => A (fst v)) vs))
+          else if existsb (fun v => fst v =? 4) vs then verdict V_SPECFAIL cls [11; 4] (L (map (fun v => A (fst v)) vs))
+          else if negb (nodupz (flat_map (fun v => match snd v with Some k => [k] | None => [] end) vs)) then verdict V_SPECFAIL cls [11; 5] (L [])
+          else verdict V_OK cls [] (L [])
+      | _, _ => badcase
+      end
+  | _, _ => badcase
+  end.
 
 Definition check_iso (prop : Z) (inp impl : sx) : sx :=
   match inp, impl with
